@@ -315,7 +315,7 @@ def run_fuzz(case):
                     actions_log.append("put")
                     ep.put(w.put_request())
                 elif act == "put":
-                    pk = rng.choice(["same", "empty", "md_only", "missing", "unknown_dest", "long_source_name", "long_dest_name", "binary_msgs"])
+                    pk = rng.choice(["same", "empty", "md_only", "missing", "unknown_dest", "long_source_name", "long_dest_name", "binary_msgs", "source_without_dest", "dest_without_source"])
                     if pk.startswith("long_") and w.cfg["fs"] != "mem":
                         pk = "same"  # (the host file system of the native filestore has its own limit per path component)
                     actions_log.append("put:" + pk)
@@ -325,6 +325,10 @@ def run_fuzz(case):
                         req = PutRequest(ByteFieldGenerator.from_int(2, 77), w.src_path, w.dst_req_path, None, None)
                     elif pk == "md_only":
                         req = PutRequest(w.dst_id, None, None, None, None)
+                    elif pk in ("source_without_dest", "dest_without_source"):
+                        # only one of the two file names is given (neither a file transfer nor a metadata-only request)
+                        req = PutRequest(w.dst_id, w.src_path if pk == "source_without_dest" else None, None if pk == "source_without_dest" else w.dst_req_path, None, None)
+                        obs["put_requests_with_one_file_name_only"] = obs.get("put_requests_with_one_file_name_only", 0) + 1
                     elif pk == "binary_msgs":
                         # messages to user are arbitrary binary data (here: not UTF-8, longer than the reserved 'cfdp' prefix)
                         from spacepackets.cfdp.tlv import MessageToUserTlv
@@ -475,4 +479,4 @@ def finalize(ctx):
     return [], inc
 
 
-REQUIRED = {"metadata_pdus_with_non_utf8_file_name": 50, "put_requests_with_binary_messages_to_user": 50, "put_requests_with_over_long_names": 50, "pdus_together_with_timer_expiry": 500, "resets_with_undrained_queue": 500, "enumerated_sequences": 5000, "fuzz_cases": 200, "pdus_to_busy_handler": 2000, "admission_rejections_checked": 500, "loop_cases": 200, "calls_returned": 2000}
+REQUIRED = {"put_requests_with_one_file_name_only": 50, "metadata_pdus_with_non_utf8_file_name": 50, "put_requests_with_binary_messages_to_user": 50, "put_requests_with_over_long_names": 50, "pdus_together_with_timer_expiry": 500, "resets_with_undrained_queue": 500, "enumerated_sequences": 5000, "fuzz_cases": 200, "pdus_to_busy_handler": 2000, "admission_rejections_checked": 500, "loop_cases": 200, "calls_returned": 2000}
